@@ -703,7 +703,15 @@ func (ctx *RenderContext) EvaluateExpression(node Node) (interface{}, error) {
 		return n.value, nil
 
 	case *VariableNode:
-		// Check if it's a macro first
+		// A variable of the template (context entry, set, loop variable, macro
+		// parameter) wins over a macro of the same name
+		for c := ctx; c != nil; c = c.parent {
+			if value, ok := c.context[n.name]; ok {
+				return value, nil
+			}
+		}
+
+		// Check if it's a macro
 		if macro, ok := ctx.GetMacro(n.name); ok {
 			return macro, nil
 		}
